@@ -25,6 +25,8 @@ pub enum OtherOp {
     Unbond { i: u8, share: u8 },
     /// other holder i claims its rewards
     Claim { i: u8 },
+    /// the reward contract's owner re-submits its current configuration (same hub, same reward coin, same swap)
+    Reconfig,
 }
 
 #[derive(Clone, Debug, Serialize, Deserialize)]
@@ -80,6 +82,7 @@ fn other_op() -> BoxedStrategy<OtherOp> {
         4 => (0u8..4, 0u8..6, 1u8..=25).prop_map(|(i, j, share)| OtherOp::Transfer { i, j, share }),
         2 => (0u8..4, 1u8..=25).prop_map(|(i, share)| OtherOp::Unbond { i, share }),
         1 => (0u8..4).prop_map(|i| OtherOp::Claim { i }),
+        1 => Just(OtherOp::Reconfig),
     ]
     .boxed()
 }
@@ -221,6 +224,8 @@ fn run(c: &Case, reorder: bool, split: Option<&[u8]>, with_others: bool, out: &m
         }
     }
     let mut tr = Trace { after_update: vec![], facts: vec![], records: vec![], notes: vec![] };
+    // the reward coin already indexed and not yet claimed, kept by the checker
+    let mut recorded: u128 = 0;
     for (ri, round) in c.rounds.iter().enumerate() {
         // ---- window: other holders' operations; amounts are shares of the window-start balance so that any order
         // is valid (each holder gives away at most 4 x 25% ... capped below)
@@ -232,7 +237,7 @@ fn run(c: &Case, reorder: bool, split: Option<&[u8]>, with_others: bool, out: &m
             let mut admitted: Vec<(&OtherOp, u128)> = vec![];
             for op in round.others.iter() {
                 match op {
-                    OtherOp::Bond { .. } | OtherOp::Claim { .. } => admitted.push((op, 0)),
+                    OtherOp::Bond { .. } | OtherOp::Claim { .. } | OtherOp::Reconfig => admitted.push((op, 0)),
                     OtherOp::Transfer { i, j, share } => {
                         let ii = (*i as usize) % n;
                         let a = start[ii] * (*share as u128) / 100;
@@ -285,7 +290,21 @@ fn run(c: &Case, reorder: bool, split: Option<&[u8]>, with_others: bool, out: &m
                         }
                     }
                     OtherOp::Claim { i } => {
+                        let before = w.balance(REWARD, KUSD);
                         let _ = w.tx(&other(*i, n), REWARD, &basset::reward::ExecuteMsg::ClaimRewards { recipient: None }, &[]);
+                        recorded = recorded.saturating_sub(before - w.balance(REWARD, KUSD));
+                    }
+                    OtherOp::Reconfig => {
+                        let r = w.tx(
+                            OWNER,
+                            REWARD,
+                            &basset::reward::ExecuteMsg::UpdateConfig { hub_contract: Some(HUB.into()), reward_denom: Some(KUSD.into()), swap_contract: Some(SWAP.into()) },
+                            &[],
+                        );
+                        if let Err(e) = r {
+                            out.fail(v("scenario-op-failed", format!("the owner's re-submission of the reward contract's configuration failed: {}", e)));
+                            return None;
+                        }
                     }
                 }
             }
@@ -293,10 +312,15 @@ fn run(c: &Case, reorder: bool, split: Option<&[u8]>, with_others: bool, out: &m
         // ---- delivery + index update
         let prev = reward_state(&w);
         let observed_bal: u128 = accounts.iter().map(|a| bal(&w, BSEI, a)).sum();
-        let unindexed = w.balance(REWARD, KUSD) + round.reward.u128() - prev.prev_reward_balance.u128();
+        // what this update has to index: everything the contract holds beyond what earlier updates indexed and claims
+        // have not yet paid out (the checker's own ledger, not the contract's `prev_reward_balance`)
+        let unindexed = w.balance(REWARD, KUSD) + round.reward.u128() - recorded;
         if let Err(e) = deliver(&mut w, round.reward.u128()) {
             out.fail(v("index-update-failed", format!("round {}: {}", ri, e)));
             return None;
+        }
+        if !prev.total_balance.is_zero() {
+            recorded = w.balance(REWARD, KUSD);
         }
         tr.facts.push((unindexed, prev.total_balance.u128(), observed_bal));
         tr.after_update.push(accounts.iter().fold(Uint256::zero(), |t, a| t + accrual(&w, a)));
